@@ -142,9 +142,14 @@ func runRule(c *Ctx, rule *Rule) (res ruleResult) {
 		res.obs = r.obs
 		res.info = r.info
 	}()
+	curCtx = c
 	rule.Run(c, r)
 	return
 }
+
+// curCtx: the context of the rule that is running (rules run one at a time); used by helpers without a Ctx parameter
+// for call-site queries.
+var curCtx *Ctx
 
 type evidence struct {
 	PropertyID  string                 `json:"property_id"`
